@@ -54,8 +54,23 @@ func TestSystemPredicate(t *testing.T) {
 			if _, err := system.LoadRules(cp); err != nil {
 				t.Fatalf("LoadRules: %v", err)
 			}
-			if got := len(system.GetRules()); got != len(rules) {
-				t.Fatalf("%d valid rules loaded, module reports %d", len(rules), got)
+			got := system.GetRules()
+			if len(got) != len(rules) {
+				t.Fatalf("%d valid rules loaded, module reports %d", len(rules), len(got))
+			}
+			// what a getter hands out belongs to the caller: editing it changes neither what is reported next nor what is enforced
+			for i := range got {
+				got[i].TriggerCount += 1000
+				got[i].Strategy = system.NoAdaptive
+			}
+			again := map[string]system.Rule{}
+			for _, r := range system.GetRules() {
+				again[r.ID] = r
+			}
+			for _, r := range rules {
+				if g, ok := again[r.ID]; !ok || g.MetricType != r.MetricType || g.TriggerCount != r.TriggerCount || g.Strategy != r.Strategy {
+					t.Fatalf("%s: after a caller edited the rules an earlier GetRules call had returned, GetRules reports %+v for the loaded rule %+v", why, g, *r)
+				}
 			}
 		}
 		nr := rapid.IntRange(0, 3).Draw(t, "nrules")
